@@ -2,6 +2,7 @@
 //! every check.  usage: harness <PROP> gen|replay --seed S --n N --tier quick|thorough --out DIR [--cases FILE]
 pub mod bddprog;
 pub mod exprs;
+pub mod sddprog;
 pub mod util;
 use std::collections::HashSet;
 use std::io::Write;
